@@ -1145,6 +1145,10 @@ func execPrepareCase(pc *prepCase, caseID string, r *rng, ps *prepSession, seq *
 		order := pr.perm(len(wf.Steps))
 		for i, s := range wf.Steps {
 			n := fmt.Sprintf("Rn%dq%d", order[i], pr.intn(1000))
+			if pr.chance(1, 2) {
+				// names that end in, or contain, words the engine's own path handling looks for
+				n += []string{"_substeps", "steps", "_steps_x", "_outputs", ".input"}[pr.intn(4)]
+			}
 			m[s.ID] = n
 			inv[n] = s.ID
 		}
